@@ -67,8 +67,8 @@ class Eval:
                 return self.fb.const_value(t[1])
             except Exception:
                 raise Undecided("const %s" % t[1])
-        if tag in ("ref", "deref"):
-            return self.ev(t[1])
+        if tag in ("ref", "deref", "down"):
+            return self.ev(t[1])     # `down`: the payload view of an Option/Result value (its `.0` passes through below)
         if tag == "cast":
             v = self.ev(t[1])
             to = t[2]
@@ -122,7 +122,21 @@ class Eval:
                 return vals.pop()
             raise Undecided("phi with several values")
         if tag == "unwrap":
-            return self.ev(t[1])
+            x = t[1]
+            if x[0] == "phi":
+                # the value of `x?` / `x.unwrap()`: only the Ok / Some definitions have one
+                vals = set()
+                for alt in x[2]:
+                    if alt[0] == "agg" and alt[2] in ("Ok", "Some") and len(alt[3]) == 1:
+                        vals.add(self.ev(alt[3][0][1]))
+                    elif alt[0] == "agg" and alt[2] in ("Err", "None") or alt[0] == "from_residual":
+                        continue
+                    else:
+                        vals.add(self.ev(alt))
+                if len(vals) == 1:
+                    return vals.pop()
+                raise Undecided("unwrap of a merge with several values")
+            return self.ev(x)
         raise Undecided("term %s" % show(t))
 
     def width_of(self, t):
@@ -193,8 +207,19 @@ class Eval:
         name, args = t[1], t[2]
         info = self.sym.info(t) if self.sym is not None else {}
         self_ty = info.get("self_ty") or (info.get("res") or {}).get("self_ty")
-        if name in ("into", "from", "clone", "deref", "borrow", "as_ref", "to_owned") and len(args) == 1:
+        if name in ("into", "from", "clone", "deref", "borrow", "as_ref", "to_owned", "io_try_into", "try_into", "try_from", "raw_value",
+                    "unwrap", "expect") and len(args) in (1, 2) and (len(args) == 1 or name == "expect"):
+            return self.ev(args[0])       # value-preserving conversions (a failing conversion has no value on that path)
+        if name in ("ok_or", "ok_or_else", "unwrap_or", "unwrap_or_else") and len(args) == 2 and name.startswith("ok_or"):
             return self.ev(args[0])
+        if name in ("checked_add", "checked_sub", "checked_mul", "saturating_add", "saturating_sub", "wrapping_add", "wrapping_sub") and len(args) == 2:
+            a, b = self.ev(args[0]), self.ev(args[1])
+            r = a + b if name.endswith("add") else (a - b if name.endswith("sub") else a * b)
+            if 0 <= r < (1 << 64):
+                return r
+            if name.startswith("saturating"):
+                return 0 if r < 0 else (1 << 64) - 1
+            raise Undecided("%s overflows" % name)
         if name == "bits" and len(args) == 1:
             return self.ev(args[0])
         if name in ("from_bits_retain",) and len(args) == 1:
